@@ -23,7 +23,7 @@ class RandomShim:
 
         def shuffle(l):
             orig_shuffle(l)
-            log["shuffles"].append([int(a) for a in l])
+            log["shuffles"].append(list(l))
 
         def rnd():
             v = orig_random()
@@ -32,6 +32,38 @@ class RandomShim:
             return v
         r.shuffle, r.random = shuffle, rnd
         return r
+
+
+class HeapShim:
+    """stands in for `heapq` inside search.py: same functions, counts pushes / pops per state (branch coverage)"""
+    def __init__(self):
+        import heapq
+        self._h, self.enabled = heapq, True
+        self.pushed, self.popped = {}, {}
+
+    def heappush(self, q, node):
+        if self.enabled:
+            self.pushed[node.state] = self.pushed.get(node.state, 0) + 1
+        return self._h.heappush(q, node)
+
+    def heappop(self, q):
+        node = self._h.heappop(q)
+        if self.enabled:
+            self.popped[node.state] = self.popped.get(node.state, 0) + 1
+        return node
+
+
+def label_maps(case):
+    """state / action labels handed to msdm (the generated problem is over indices)"""
+    n, sch, asch = case["n"], case.get("labels", "int"), case.get("alabels", "int")
+    L = {"int": lambda: list(range(n)),
+         "perm": lambda: [int(x) for x in case["perm"]],                      # label order differs from index order
+         "str": lambda: ["" if i == 0 else "s%d" % i for i in range(n)],      # "" is falsy
+         "tuple": lambda: [() if i == 0 else (i, "x") for i in range(n)],     # () is falsy
+         "float": lambda: [float(i) for i in range(n)],                       # 0.0 is falsy
+         "bool01": lambda: [False, True][:n] + list(range(2, n))}[sch]()
+    A = {"int": [0, 1, 2, 3], "str": ["", "a1", "a2", "a3"], "tuple": [(), (1,), (2,), (3,)]}[asch]
+    return L, {l: i for i, l in enumerate(L)}, A, {a: i for i, a in enumerate(A)}
 
 
 def make_dist(kind, x):
@@ -47,59 +79,82 @@ def make_dist(kind, x):
 
 def build_problem(case):
     from msdm.core.mdp.deterministic_shortest_path import DeterministicShortestPathProblem
-    from msdm.core.mdp.quickmdp import QuickMDP
-    succ = [{int(a): (int(t), int(c)) for a, t, c in row} for row in case["succ"]]
-    acts = [tuple(int(a) for a, _, _ in row) for row in case["succ"]]
-    goal = [bool(x) for x in case["goal"]]
-    start = int(case["start"])
+    from msdm.core.mdp.quickmdp import QuickMDP, QuickTabularMDP
+    L, idx, A, aidx = label_maps(case)
+    num = int if case.get("num_type") == "int" else float
+    succ = {L[s]: {A[int(a)]: (L[int(t)], num(c)) for a, t, c in row} for s, row in enumerate(case["succ"])}
+    cont = case.get("actions_container", "tuple")
+    mk = {"tuple": tuple, "list": list, "dict": dict.fromkeys, "iter": iter}[cont]
+    acts = {L[s]: [A[int(a)] for a, _, _ in row] for s, row in enumerate(case["succ"])}
+    goal = {L[s]: bool(x) for s, x in enumerate(case["goal"])}
+    start = L[int(case["start"])]
+
+    class G(DeterministicShortestPathProblem):
+        def next_state(self, s, a): return succ[s][a][0]
+        def initial_state(self): return start
+        def reward(self, s, a, ns): return -succ[s][a][1]
+        def actions(self, s): return mk(acts[s])
+        def is_absorbing(self, s): return goal[s]
     if case["repr"] == "next_state":
-        class G(DeterministicShortestPathProblem):
-            def next_state(self, s, a): return succ[s][a][0]
-            def initial_state(self): return start
-            def reward(self, s, a, ns): return -float(succ[s][a][1])
-            def actions(self, s): return acts[s]
-            def is_absorbing(self, s): return goal[s]
         return G()
+    if case["repr"] == "dspdist":
+        # a non-DSP MDP whose distributions come from DeterministicShortestPathProblem.next_state_dist / initial_state_dist
+        base = G()
+        return QuickMDP(next_state_dist=base.next_state_dist, reward=base.reward, actions=base.actions,
+                        initial_state_dist=base.initial_state_dist, is_absorbing=base.is_absorbing)
     ik, tk = case["repr"].split("/")
-    return QuickMDP(
-        next_state_dist=lambda s, a: make_dist(tk, succ[s][a][0]),
-        reward=lambda s, a, ns: -float(succ[s][a][1]),
-        actions=lambda s: acts[s],
-        initial_state_dist=make_dist(ik, start),
-        is_absorbing=lambda s: goal[s])
+    if case.get("shared_dists"):          # one distribution object per (s, a), handed out on every call
+        table = {(s, a): make_dist(tk, ns) for s, row in succ.items() for a, (ns, _) in row.items()}
+        nsd = lambda s, a: table[(s, a)]
+    else:
+        nsd = lambda s, a: make_dist(tk, succ[s][a][0])
+    cls = QuickTabularMDP if case.get("tabular") else QuickMDP
+    mdp = cls(next_state_dist=nsd, reward=lambda s, a, ns: -succ[s][a][1], actions=lambda s: mk(acts[s]),
+              initial_state_dist=make_dist(ik, start), is_absorbing=lambda s: goal[s])
+    if case.get("tabular"):               # base object already USED (cached views built) before it is wrapped
+        mdp.state_list, mdp.action_list, mdp.transition_matrix, mdp.reward_matrix
+    return mdp
 
 
-def describe(res, with_value):
+def describe(res, with_value, case):
     if res is None:
         return {"plan": None}
-    path = [int(s) for s in res.path]
+    L, idx, A, aidx = label_maps(case)
+    path = [idx[s] for s in res.path]
     acts = []
-    for s in path[:-1]:
-        d = res.policy.action_dist(s)
-        sup = list(d.support)
-        if len(sup) != 1:
+    for s in res.path[:-1]:
+        sup = list(res.policy.action_dist(s).support)
+        sup2 = list(res.policy.action_dist(s).support)       # policy object asked twice
+        if len(sup) != 1 or sup != sup2:
             raise ValueError("policy not deterministic at %r" % (s,))
-        acts.append(int(sup[0]))
-    out = {"plan": {"path": path, "acts": acts}, "visited": sorted(int(s) for s in res.visited)}
+        acts.append(aidx[sup[0]])
+    out = {"plan": {"path": path, "acts": acts}, "visited": sorted(idx[s] for s in res.visited)}
     if with_value:
         out["plan"]["value"] = fj(res.path_value)
     return out
 
 
-def run_alg(mk, get_problem, with_value):
+def run_alg(planner, get_problem, with_value, case):
     import msdm.algorithms.search as S
-    shim = RandomShim()
-    saved = S.random
-    S.random = shim
+    _, _, _, aidx = label_maps(case)
+    saved = S.random, S.heapq
     try:
-        out = describe(mk().plan_on(get_problem()), with_value)
+        prob = get_problem()
+        for _ in range(2 if case.get("replan") else 1):       # same planner object, same problem object, again
+            shim, hshim = RandomShim(), HeapShim()
+            S.random, S.heapq = shim, hshim
+            planner._heap_shim = hshim
+            out = describe(planner.plan_on(prob), with_value, case)
     except BaseException as e:
         if isinstance(e, (KeyboardInterrupt, SystemExit)):
             raise
         out = {"error": type(e).__name__ + ": " + str(e)[:300]}
     finally:
-        S.random = saved
-    out["shuffles"], out["randoms"] = shim.log["shuffles"], shim.log["randoms"]
+        S.random, S.heapq = saved
+    out["shuffles"] = [[aidx[a] for a in l] for l in shim.log["shuffles"]]
+    out["randoms"] = shim.log["randoms"]
+    out["repushes"] = sum(k - 1 for k in hshim.pushed.values())
+    out["stale_pops"] = sum(k - 1 for k in hshim.popped.values())
     return out
 
 
@@ -107,31 +162,48 @@ def nested_heuristic(case):
     """heuristic_value(s) = - (least cost from s in the relaxed problem), found lazily by a nested A* on a second,
     non-DSP MDP (so from_mdp builds another wrapper while the outer search is running); None -> -inf"""
     from msdm.algorithms.search import AStarSearch
+    import msdm.algorithms.search as S
+    L, idx, _, _ = label_maps(case)
     seen = {}
 
     def hv(s):
-        if s not in seen:
-            sub = dict(case, succ=case["relaxed_succ"], start=int(s), repr=case["relaxed_repr"])
-            r = AStarSearch().plan_on(build_problem(sub))
-            seen[s] = float("inf") if r is None else float(r.path_value)
-        return -seen[s]
+        i = idx[s]
+        if i not in seen:
+            sub = dict(case, succ=case["relaxed_succ"], start=i, repr=case["relaxed_repr"], tabular=False)
+            hs = S.heapq
+            en, hs.enabled = getattr(hs, "enabled", None), False
+            try:
+                r = AStarSearch().plan_on(build_problem(sub))
+            finally:
+                if en is not None:
+                    hs.enabled = en
+            seen[i] = float("inf") if r is None else float(r.path_value)
+        return -seen[i]
     return hv, seen
 
 
-def search_both(case, get_problem):
+def make_planners(case):
     from msdm.algorithms.search import AStarSearch, BreadthFirstSearch
+    _, idx, _, _ = label_maps(case)
+    num = int if case.get("num_type") == "int" else float
     if case.get("scenario") == "nested_h":
         hfun, seen = nested_heuristic(case)
     else:
-        hv = [float("inf") if x == "inf" else float(x) for x in case["h"]]     # heuristic COST per state
-        hfun, seen = (lambda s: -hv[s]), None
-    a = run_alg(lambda: AStarSearch(heuristic_value=hfun, seed=case["seed"],
-                                    randomize_action_order=bool(case["shuffle"]),
-                                    tie_breaking_strategy=case["tie"]), get_problem, True)
+        hv = [float("inf") if x == "inf" else num(x) for x in case["h"]]     # heuristic COST per state
+        hfun, seen = (lambda s: -hv[idx[s]]), None
+    kw = {} if case.get("assert_monotone", True) else {"assert_monotone_heuristic": False}
+    a = AStarSearch(heuristic_value=hfun, seed=case["seed"], randomize_action_order=bool(case["shuffle"]),
+                    tie_breaking_strategy=case["tie"], **kw)
+    b = BreadthFirstSearch(seed=case["bfs_seed"], randomize_action_order=bool(case["shuffle"]))
+    return a, b, seen
+
+
+def search_both(case, get_problem, planners=None):
+    pa, pb, seen = planners or make_planners(case)
+    a = run_alg(pa, get_problem, True, case)
     if seen is not None:
         a["h_seen"] = {str(int(s)): fj(v) for s, v in seen.items()}
-    b = run_alg(lambda: BreadthFirstSearch(seed=case["bfs_seed"],
-                                           randomize_action_order=bool(case["shuffle"])), get_problem, False)
+    b = run_alg(pb, get_problem, False, case)
     return {"astar": a, "bfs": b}
 
 
@@ -142,10 +214,12 @@ def one(case, pl):
         other = case["other"]
         w1 = DSP.from_mdp(build_problem(case))
         w2 = DSP.from_mdp(build_problem(other))
-        res = search_both(case, lambda: w1)
-        res["other"] = search_both(other, lambda: w2)
+        planners = make_planners(case) if case.get("shared_planner") else None     # one planner object, two problems
+        res = search_both(case, lambda: w1, planners)
+        res["other"] = search_both(other, lambda: w2, planners)
         return res
-    return search_both(case, lambda: build_problem(case))
+    prob = build_problem(case)               # one problem object for both searches
+    return search_both(case, lambda: prob)
 
 
 if __name__ == "__main__":
